@@ -20,9 +20,13 @@
    (5) other entries are unaffected: in ANY faulty run of a keyed one-shot write, every other key's lookup and every
        other stored content file are exactly as before, the index area stays well-shaped, and the written key's lookup is
        its previous entry or the complete new one (FaultFrameP.v).
+   (6) retry: after ANY faulty run of a keyed one-shot write the cache is still well-shaped ([Shape]: directories and files
+       where they belong, temp entries regular files; kept by every step and every intermediate state), so the same call
+       issued again without faults succeeds, its data reads back, and every other key is as before the first attempt
+       (RetryP.v).
    Partial: kernel errno semantics and the mapping of library-internal syscalls to model steps (one model step may be
    several syscalls) are exercised by the strace fault sweep, compared by oracle, not step for step. *)
-From CC Require Import Bytes Codec Utf8 Lines Json Sri Record Fs Prog Api Crash BytesP CodecP LinesP FsP ProgP SriP RecordP IndexP ReadP WriteP CommitP RemoveP TotalP CrashP CrashIdxP FaultP ConfineP KeepP Sess SessP JsonP RecCodecP MetaP HistP FaultFrameP.
+From CC Require Import Bytes Codec Utf8 Lines Json Sri Record Fs Prog Api Crash BytesP CodecP LinesP FsP ProgP SriP RecordP IndexP ReadP WriteP CommitP RemoveP TotalP CrashP CrashIdxP FaultP ConfineP KeepP Sess SessP JsonP RecCodecP MetaP HistP FaultFrameP RetryP.
 
 Section C13.
 Variable hash : algo -> bytes -> bytes.
@@ -91,6 +95,17 @@ Theorem C13_write_faulty_others f fl a key data now r f' :
   (abs_idx hash f' key = abs_idx hash f key \/ abs_idx hash f' key = new_entry key o' now).
 Proof. exact (write_faulty_others hash HL f fl a key data now r f'). Qed.
 
+Theorem C13_retry_succeeds f fl a key data now r f' :
+  IndexInv f -> Shape f ->
+  let o' := commit_opts (write_opts fl a data) (sri_of hash a data) (lenN data) in
+  wf_rec hash (smeta_of key o' now) -> PrefixFree hash (encode_smeta (smeta_of key o' now)) ->
+  frun (write hash fl a key data now) f r f' ->
+  CacheInv f' /\
+  fst (run (write hash fl a key data now) f') = Ok (sri_of hash a data) /\
+  let f'' := snd (run (write hash fl a key data now) f') in
+  run (read hash key) f'' = (Ok data, f'') /\ (forall k, k <> key -> abs_idx hash f'' k = abs_idx hash f k).
+Proof. exact (write_retry_succeeds hash HL f fl a key data now r f'). Qed.
+
 (* what SameIdx gives: the index area is well-shaped, every key's lookup and every non-index location unchanged *)
 Theorem C13_same_idx f c :
   SameIdx hash f c -> IndexInv c /\ (forall k, abs_idx hash c k = abs_idx hash f k) /\ (forall l, ~ is_index l -> lookup c l = lookup f l).
@@ -113,6 +128,10 @@ Proof.
   - vm_compute. reflexivity.
 Qed.
 
+(* the shape premise is satisfiable: the empty cache, and the cache after a write *)
+Example C13_shape_empty : Shape [].
+Proof. intros l n H. discriminate. Qed.
+
 Print Assumptions C13_all_answers_total.
 Print Assumptions C13_read_truthful.
 Print Assumptions C13_fpost_frun.
@@ -123,3 +142,4 @@ Print Assumptions C13_same_idx.
 Print Assumptions C13_close_truthful.
 Print Assumptions C13_commit_truthful.
 Print Assumptions C13_write_faulty_others.
+Print Assumptions C13_retry_succeeds.
